@@ -190,7 +190,7 @@ func TestC02History(t *testing.T) { runRapid(t, "TestC02History", specC02.proper
 // ---- C06 ----
 
 var specC06 = &lifeSpec{
-	Prop: "C06", Test: "TestC06",
+	Prop: "C06", Test: "TestC06", VaryWorld: true,
 	Oracles: func() []Oracle { return []Oracle{&C06Oracle{}} },
 	Nontrivial: func(s *Sim, os []Oracle) bool {
 		o := os[0].(*C06Oracle)
@@ -208,7 +208,7 @@ func TestC06(t *testing.T) { runRapid(t, "TestC06", specC06.property()) }
 // ---- C11 ----
 
 var specC11 = &lifeSpec{
-	Prop: "C11", Test: "TestC11",
+	Prop: "C11", Test: "TestC11", VaryWorld: true,
 	Oracles:    func() []Oracle { return []Oracle{NewC11()} },
 	Nontrivial: func(s *Sim, os []Oracle) bool { return os[0].(*C11Oracle).Reached > 0 },
 	Weights:    map[string]int{"complete": 5, "advance": 4, "storeNew": 2, "storeUpdate": 2, "renew": 3, "migrate": 2, "cancel": 1, "terminate": 1, "claim": 0, "migRotate": 1},
@@ -223,7 +223,7 @@ func TestC11(t *testing.T) { runRapid(t, "TestC11", specC11.property()) }
 // ---- C05 ----
 
 var specC05 = &lifeSpec{
-	Prop: "C05", Test: "TestC05",
+	Prop: "C05", Test: "TestC05", VaryWorld: true,
 	Oracles: func() []Oracle { return []Oracle{NewC05()} },
 	Tune: func(cfg *LifeCfg, s *Sim) {
 		s.TraceSteps = true
@@ -243,7 +243,7 @@ func TestC05(t *testing.T) { runRapid(t, "TestC05", specC05.property()) }
 // ---- C07 ----
 
 var specC07 = &lifeSpec{
-	Prop: "C07", Test: "TestC07",
+	Prop: "C07", Test: "TestC07", VaryWorld: true,
 	Oracles: func() []Oracle { return []Oracle{NewC07()} },
 	Tune:    func(cfg *LifeCfg, s *Sim) { s.TraceSteps = true },
 	Nontrivial: func(s *Sim, os []Oracle) bool {
@@ -262,7 +262,7 @@ func TestC07(t *testing.T) { runRapid(t, "TestC07", specC07.property()) }
 // ---- C04 ----
 
 var specC04 = &lifeSpec{
-	Prop: "C04", Test: "TestC04",
+	Prop: "C04", Test: "TestC04", VaryWorld: true,
 	Oracles: func() []Oracle { return []Oracle{NewC04()} },
 	Tune:    func(cfg *LifeCfg, s *Sim) { s.TraceSteps = true },
 	Nontrivial: func(s *Sim, os []Oracle) bool {
